@@ -268,15 +268,21 @@ def run_c18(tier):
 # ----------------------------------------------------------------------------------------------
 # C19
 # ----------------------------------------------------------------------------------------------
-def layout_record(g, bond, seed, tag):
+ALIGN = [(1.0, 0.0), (0.0, 1.0), (1.0, 1.0)]
+
+
+def layout_record(g, bond, seed, tag, align=None):
     import numpy as np
     from cgsmiles.graph_layout import vespr_layout
     rec = {"mode": "layout", "tag": tag, "outcome": "ok", "n": g.number_of_nodes(), "npos": 0, "keys_match": False,
-           "finite": False, "bond_ppm": [], "mean_ppm": 0, "bond": bond, "seed": seed}
+           "finite": False, "bond_ppm": [], "mean_ppm": 0, "bond": bond, "seed": seed, "align_ppm": -1}
+    if align is not None:
+        rec["tag"] = tag = tag + " align_with=%s" % (align,)
     try:
         np.random.seed(seed)
         with project.quiet():
-            pos = vespr_layout(g, default_bond=bond)
+            pos = vespr_layout(g, default_bond=bond) if align is None else vespr_layout(g, default_bond=bond,
+                                                                                      align_with=np.array(align))
     except Exception as exc:
         rec["outcome"] = project.outcome_of(exc)
         return rec
@@ -288,6 +294,20 @@ def layout_record(g, bond, seed, tag):
         ds = [float(np.linalg.norm(np.asarray(pos[a]) - np.asarray(pos[b]))) for a, b in g.edges]
         rec["bond_ppm"] = [int(d / bond * 1e6) for d in ds]
         rec["mean_ppm"] = int(round(sum(ds) / len(ds) / bond * 1e6))
+        if align is not None:
+            # the longest extent of the drawing is parallel to align_with: some pair of nodes at (numerically) the largest
+            # distance has its connecting vector along the axis (ties between equally long pairs are all admitted)
+            P = np.array(arr)
+            u = np.asarray(align, dtype=float)
+            u = u / np.linalg.norm(u)
+            best, dmax = 10 ** 6, max(float(np.linalg.norm(P[i] - P[j])) for i in range(len(P)) for j in range(i))
+            for i in range(len(P)):
+                for j in range(i):
+                    v = P[i] - P[j]
+                    d = float(np.linalg.norm(v))
+                    if d >= dmax * (1 - 1e-6) and d > 0:
+                        best = min(best, int(abs(v[0] * u[1] - v[1] * u[0]) / d * 1e6))
+            rec["align_ppm"] = best
     return rec
 
 
@@ -297,7 +317,7 @@ def run_c19(tier):
     check = Check("C19", level="other", tier=tier)
     check.rule = ("every connected atlas graph with 2-6 nodes + chains/stars/rings/fused rings + resolved molecules with hydrogens "
                   "and E/Z marks x bond-length settings {0.5, 1, 2.7} x node relabelings (permuted ints, strings, insertion order) "
-                  "x NumPy seeds; non-trivial = more than two nodes")
+                  "x NumPy seeds, each also with the optional align_with axis (x, y, diagonal); non-trivial = more than two nodes")
     check.extra["explanation"] = ("the harness measures positions; TLC evaluates C19_AllNodes, C19_Finite, C19_NoCoincidentBond "
                                   "and C19_MeanBond (|mean - b| <= 1e-6 b) of GeomTrace.tla on integer-scaled values; TLA+ cannot "
                                   "decide floating-point geometry - it contributes the predicates only (thin, stated in DESIGN.md).")
@@ -322,6 +342,9 @@ def run_c19(tier):
         for s in range(nseeds):
             b = bonds[(i + s) % 3]
             recs.append(layout_record(g, b, common.SEED * 100 + s, tag))
+            # the optional alignment axis (x, y, diagonal in turn; all three for the smallest graphs)
+            for a in (ALIGN if g.number_of_nodes() <= 3 else [ALIGN[(i + s) % 3]]):
+                recs.append(layout_record(g, b, common.SEED * 100 + s, tag, align=a))
             if g.number_of_nodes() <= 3:      # the smallest graphs at every scale
                 for b2 in bonds:
                     if b2 != b:
@@ -342,7 +365,8 @@ def run_c19(tier):
                 recs.append(layout_record(h, b, common.SEED * 100 + s, tag + " relabelled"))
     verdicts, stats = tlc.validate("GeomTrace", [{k: v for k, v in r.items() if k not in ("tag", "bond", "seed")} for r in recs])
     check.add_tv(stats)
-    cl = ["C19_Returns", "C19_AllNodes", "C19_Finite", "C19_NoCoincidentBond", "C19_MeanBond"]
+    cl = ["C19_Returns", "C19_AllNodes", "C19_Finite", "C19_NoCoincidentBond", "C19_MeanBond", "X_Aligned"]
+    check.extra["with_align_with"] = sum(1 for r in recs if r["align_ppm"] >= 0 or "align_with" in r["tag"])
     for rec, v in zip(recs, verdicts):
         check.evaluations += 1
         check.traces += 1
